@@ -10,16 +10,17 @@ RULE = ("correspondence: the instruction list of CvoqramInitialize(...).definiti
         "compared inside Coq with CvoModel.cvo_gates for Hamming-sorted dictionaries, n = 2..6/9, together with the executable order premise "
         "ordered_b of C06_cvo_gates / C06_cvo_gates_aux; contract: the 2x2 matrices of the "
         "emitted rotations satisfy the amplitude recurrence x_j = U_j[0,1] g_j, g_(j+1) = U_j[1,1] g_j, g_m = 0 that instantiates "
-        "C06_cvo_step; PivotInitialize without auxiliaries, n = 2..14/22: the instructions after the dense preparation are read as X / CX / "
-        "multi-controlled X (Qiskit mcx_vchain as ideal; small Mcg blocks checked numerically to be the ideal MCX), the side conditions of "
-        "C06_pivot_cert are evaluated in Coq, and the dense vector handed to LowRankInitialize must carry each key's amplitude at the index "
+        "C06_cvo_step; PivotInitialize with and without auxiliaries, n = 2..14/22: the instructions after the dense preparation are read as X / CX / "
+        "multi-controlled X (Qiskit mcx_vchain as ideal; small Mcg blocks checked numerically to be the ideal MCX) or, with auxiliaries, blocks "
+        "rccx ladder ; CX ; reversed ladder (Qiskit's rccx matrix compared with the model's), the side conditions of "
+        "C06_pivot_cert / C06_pivot_aux_cert are evaluated in Coq, and the dense vector handed to LowRankInitialize must carry each key's amplitude at the index "
         "scls (rev Q) key computed in Coq from the emitted gates; direct evaluation (harness/props/c06_eval.py): full state incl. auxiliaries for merge, pivot and CVO-QRAM. "
         "distinct = distinct (dictionary, options); non-trivial = m >= 2")
 ASSUMPTIONS = ["without auxiliary qubits the multi-controlled U is C04's gate (Mcg / LdMcSpecialUnitary / Qiskit control): modelled as ideal, "
                "evaluated in the direct evaluation; with auxiliary qubits the rccx ladder of _mcuvchain is part of the proved gate list "
                "(Qiskit's rccx matrix is compared with CvoGates.rccx on every rccx met)",
                "pivot: the dense low-rank preparation is C07's; Qiskit's mcx_vchain is taken as the ideal MCX restoring its dirty ancillas; "
-               "pivot with auxiliary qubits and merge: evaluated only"]
+               "merge: evaluated only"]
 TRUSTED = ["top-level instruction list of the definition (no flattening needed)"]
 HEADER = ("From Coq Require Import List Bool Arith.\nFrom QV Require Import CvoModel CvoGates CvoAux CaseLib.\nImport ListNotations.\n"
           "Definition cgate_eqb (g h : cgate) : bool := match g, h with\n"
@@ -131,18 +132,23 @@ def correspondence(ctx):
 
 
 PHEADER = ("From Coq Require Import List Bool Arith NArith.\nFrom QV Require Import McxModel PivotCert CaseLib.\nImport ListNotations.\n"
-           "Definition keys_ok (Q : list sgate) (ks : list (N * list N)) : bool :=\n"
-           "  forallb (fun kc => existsb (N.eqb (scls (rev Q) (fst kc))) (snd kc)) ks.\n")
+           "Definition keys_ok (Q : list pgate) (ks : list (N * list N)) : bool :=\n"
+           "  forallb (fun kc => existsb (N.eqb (pcls (rev Q) (fst kc))) (snd kc)) ks.\n"
+           "Definition unps (g : pgate) : list sgate := match g with PS s => [s] | _ => [] end.\n"
+           "(* without blocks the circuit is a list of sgates: the side conditions of C06_pivot_cert are those of C06_pivot_aux_cert *)\n"
+           "Definition plain_ok (Q : list pgate) : bool := forallb sokb (flat_map unps Q) && Nat.eqb (length (flat_map unps Q)) (length Q).\n")
 
 
 def pivot_correspondence(ctx):
-    """PivotInitialize without auxiliary qubits: the instructions after the dense preparation are X / CX / multi-controlled X gates
-    (side conditions of C06_pivot_cert evaluated in Coq), and the dense vector the code hands to LowRankInitialize carries the
-    amplitude of every key at the index scls (rev Q) key computed inside Coq from the emitted gates."""
+    """PivotInitialize with and without auxiliary qubits: the instructions after the dense preparation are X / CX / multi-controlled X
+    gates or - with auxiliaries - blocks rccx ladder ; CX ; reversed ladder (side conditions of C06_pivot_cert / C06_pivot_aux_cert
+    evaluated in Coq), and the dense vector the code hands to LowRankInitialize carries the amplitude of every key at the index
+    pcls (rev Q) key computed inside Coq from the emitted gates (ancilla bits 0 on both sides)."""
     from qiskit.quantum_info import Operator
     from qclib.state_preparation import PivotInitialize
     from qclib.state_preparation.lowrank import LowRankInitialize
     from harness import monitors
+    from harness.props.c06_eval import enc, layout, effective
     nmax = 14 if ctx.quick else 22
     cases, lines = [], []
     captured = []
@@ -165,72 +171,104 @@ def pivot_correspondence(ctx):
     for n, m in sizes:
         if timed_out:
             break
-        for rep in range(2 if n <= 6 else 1):
-            keys = [int(k) for k in ctx.rng.choice(2 ** n, size=m, replace=False)] if n < 60 else None
-            if rep == 1:                                   # keys crowding the low block / the high block
-                keys = list(range(m - 1)) + [2 ** n - 1] if m - 1 < 2 ** n - 1 else keys
-            a = ctx.rng.normal(size=m) + 1j * ctx.rng.normal(size=m)
-            a = a / np.linalg.norm(a)
-            d = {format(k, f"0{n}b"): complex(v) for k, v in zip(keys, a)}
-            from harness.props.c06_eval import enc
-            case = {"class": "PivotInitialize", "opt_params": {"aux": False}, "aux": False, "mcg_method": None, "n": n, "m": m,
-                    "keys": list(d.keys()), "amps": enc(list(d.values())), "types": "complex", "family": "pivot_correspondence"}
-            captured.clear()
-            try:
-                with monitors.patched(LowRankInitialize, "initialize", lambda o: staticmethod(init_factory(o))), monitors.time_limit(300):
-                    g = PivotInitialize(d, opt_params={"aux": False})
-                    circ = g.definition
-            except monitors.InstanceTimeout:
-                ctx.violation(f"PivotInitialize(aux=False) on n={n}, m={m}: the pivoting loop did not terminate within 300 s "
-                              "(instances of this size take well under a second)", dict(case, clause="termination"))
-                timed_out = True
-                break
-            except Exception as ex:
-                ctx.note(f"PivotInitialize raised {type(ex).__name__} on n={n} m={m}")
+        for aux in (False, True):
+            if aux and m < 3:
                 continue
-            ctx.count("corr:pivot", key=("pivot", n, m, tuple(sorted(d.items()))), nontrivial=m >= 2,
-                      sample={"n": n, "m": m, "instructions": len(circ.data)} if (n, m) == (6, 5) else None)
-            ctx.max_struct_qubits = max(getattr(ctx, "max_struct_qubits", 0), n)
-            cases.append(case)
-            data = list(circ.data)
-            if len(captured) != 1 or not data or data[0].operation.name != "low_rank":
-                ctx.mismatch("C06 correspondence: PivotInitialize definition does not start with one dense low-rank preparation", case)
-                lines.append("true")
-                continue
-            dense = captured[0]
-            t = int(np.log2(len(dense)))
-            items, ok = [], circ.num_qubits == n and [circ.find_bit(q).index for q in data[0].qubits] == list(range(t))
-            for inst in data[1:]:
-                op = inst.operation
-                qs = [circ.find_bit(q).index for q in inst.qubits]
-                if op.name == "x":
-                    items.append(f"SX {qs[0]}")
-                elif op.name == "cx" and getattr(op, "ctrl_state", 1) == 1:
-                    items.append(f"SCX {qs[0]} {qs[1]}")
-                elif op.name == "mcx_vchain" and op.ctrl_state == 2 ** op.num_ctrl_qubits - 1:
-                    k = op.num_ctrl_qubits
-                    items.append(f"SMCX {coq_list([str(q) for q in qs[:k]])} {qs[k]}")     # dirty ancillas qs[k+1:] restored (Qiskit gate)
-                elif op.num_qubits <= 7 and op.name not in ("barrier",):
-                    ctx.monitor("pivot_mcx_block_is_ideal")
-                    if mcx_ideal(op):
-                        items.append(f"SMCX {coq_list([str(q) for q in qs[:-1]])} {qs[-1]}" if len(qs) > 2 else f"SCX {qs[0]} {qs[1]}")
+            for rep in range(2 if n <= 6 else 1):
+                keys = [int(k) for k in ctx.rng.choice(2 ** n, size=m, replace=False)]
+                if rep == 1 and m - 1 < 2 ** n - 1:              # keys crowding the low block, one in the far corner
+                    keys = list(range(m - 1)) + [2 ** n - 1]
+                a = ctx.rng.normal(size=m) + 1j * ctx.rng.normal(size=m)
+                a = a / np.linalg.norm(a)
+                d = {format(k, f"0{n}b"): complex(v) for k, v in zip(keys, a)}
+                opt = {"aux": aux}
+                case = {"class": "PivotInitialize", "opt_params": opt, "aux": aux, "mcg_method": None, "n": n, "m": m,
+                        "keys": list(d.keys()), "amps": enc(list(d.values())), "types": "complex", "family": "pivot_correspondence"}
+                captured.clear()
+                try:
+                    with monitors.patched(LowRankInitialize, "initialize", lambda o: staticmethod(init_factory(o))), monitors.time_limit(300):
+                        g = PivotInitialize(d, opt_params=opt)
+                        circ = g.definition
+                except monitors.InstanceTimeout:
+                    ctx.violation(f"PivotInitialize(aux={aux}) on n={n}, m={m}: the pivoting loop did not terminate within 300 s "
+                                  "(instances of this size take well under a second)", dict(case, clause="termination"))
+                    timed_out = True
+                    break
+                except Exception as ex:
+                    ctx.note(f"PivotInitialize raised {type(ex).__name__} on n={n} m={m} aux={aux}")
+                    continue
+                ctx.count("corr:pivot:" + ("aux" if aux else "noaux"), key=("pivot", n, m, aux, tuple(sorted(d.items()))), nontrivial=m >= 2,
+                          sample={"n": n, "m": m, "aux": aux, "instructions": len(circ.data)} if (n, m) == (6, 5) else None)
+                ctx.max_struct_qubits = max(getattr(ctx, "max_struct_qubits", 0), circ.num_qubits)
+                cases.append(case)
+                data = [i for i in circ.data if i.operation.name != "barrier"]
+                width, index_of = layout("PivotInitialize", effective("PivotInitialize", opt), n, m)
+                if len(captured) != 1 or not data or data[0].operation.name != "low_rank" or circ.num_qubits != width:
+                    ctx.mismatch("C06 correspondence: PivotInitialize definition does not start with one dense low-rank preparation "
+                                 "on a register of the documented width", case)
+                    lines.append("true")
+                    continue
+                dense = captured[0]
+                dq = [circ.find_bit(q).index for q in data[0].qubits]          # dense index bit j lives on qubit dq[j]
+                items = []
+                insts = [(i.operation, [circ.find_bit(q).index for q in i.qubits]) for i in data[1:]]
+                pos = 0
+                while pos < len(insts):
+                    op, qs = insts[pos]
+                    if op.name == "rccx":
+                        lad = []
+                        while pos < len(insts) and insts[pos][0].name == "rccx":
+                            ctx.monitor("rccx_matrix_is_the_model's")
+                            if np.abs(np.asarray(Operator(insts[pos][0]).data) - RCCX_REF).max() > 1e-12:
+                                lad = None
+                                break
+                            lad.append(tuple(insts[pos][1]))
+                            pos += 1
+                        ok_block = lad is not None and pos < len(insts) and insts[pos][0].name == "cx" and \
+                            getattr(insts[pos][0], "ctrl_state", 1) == 1 and \
+                            [tuple(q) for _, q in insts[pos + 1: pos + 1 + len(lad)]] == lad[::-1] and \
+                            all(o.name == "rccx" for o, _ in insts[pos + 1: pos + 1 + len(lad)])
+                        if not ok_block:
+                            items.append("PS (SU true 0)")
+                            pos += 1
+                            continue
+                        top, u = insts[pos][1]
+                        items.append("PB " + coq_list([f"({x}, {y}, {z})" for x, y, z in lad]) + f" {top} {u}")
+                        pos += 1 + len(lad)
+                        continue
+                    if op.name == "x":
+                        items.append(f"PS (SX {qs[0]})")
+                    elif op.name == "cx" and getattr(op, "ctrl_state", 1) == 1:
+                        items.append(f"PS (SCX {qs[0]} {qs[1]})")
+                    elif op.name == "mcx_vchain" and op.ctrl_state == 2 ** op.num_ctrl_qubits - 1:
+                        k = op.num_ctrl_qubits
+                        items.append(f"PS (SMCX {coq_list([str(q) for q in qs[:k]])} {qs[k]})")   # dirty ancillas qs[k+1:] restored (Qiskit gate)
+                    elif op.num_qubits <= 7:
+                        ctx.monitor("pivot_mcx_block_is_ideal")
+                        if mcx_ideal(op):
+                            items.append(f"PS (SMCX {coq_list([str(q) for q in qs[:-1]])} {qs[-1]})" if len(qs) > 2 else f"PS (SCX {qs[0]} {qs[1]})")
+                        else:
+                            items.append("PS (SU true 0)")
                     else:
-                        items.append("SU true 0")
-                else:
-                    items.append("SU true 0")
-            nz = [i for i in range(len(dense)) if dense[i] != 0]
-            pairs = []
-            for key, amp in d.items():
-                cands = [i for i in nz if dense[i] == amp]
-                pairs.append(f"({int(key, 2)}%N, {coq_list([str(i) + '%N' for i in cands])})")
-            if len(nz) != len(d) or not ok:
-                ctx.mismatch("C06 correspondence: the dense vector of PivotInitialize does not carry exactly the listed amplitudes", case)
-            Q = coq_list(items)
-            lines.append(f"(let Q := {Q} in forallb sclassicalb Q && forallb swfb Q && keys_ok Q {coq_list(pairs)})")
+                        items.append("PS (SU true 0)")
+                    pos += 1
+                nz = [i for i in range(len(dense)) if dense[i] != 0]
+
+                def place(i):
+                    return sum(((i >> j) & 1) << dq[j] for j in range(len(dq)))
+                pairs = []
+                for key, amp in d.items():
+                    cands = [place(i) for i in nz if dense[i] == amp]
+                    pairs.append(f"({index_of(key)}%N, {coq_list([str(i) + '%N' for i in cands])})")
+                if len(nz) != len(d):
+                    ctx.mismatch("C06 correspondence: the dense vector of PivotInitialize does not carry exactly the listed amplitudes", case)
+                Q = coq_list(items)
+                side = "forallb pokb Q" if aux else "forallb pokb Q && plain_ok Q"
+                lines.append(f"(let Q := {Q} in {side} && keys_ok Q {coq_list(pairs)})")
 
     def on_fail(c):
-        ctx.mismatch("C06 correspondence: PivotInitialize's gates are not classical or do not carry the keys to the dense indices "
-                     "(premises of C06_pivot_cert)", c)
+        ctx.mismatch("C06 correspondence: PivotInitialize's gates do not permute the basis states as required or do not carry the keys to "
+                     "the dense indices (premises of C06_pivot_cert / C06_pivot_aux_cert)", c)
     run_bool_cases(ctx, "c06_pivot", PHEADER, lines, cases, on_fail, shard=20)
 
 
@@ -254,7 +292,7 @@ MANIFEST = dict(
           "without them modulo the multi-controlled U being ideal (C06_cvo_gates): from |0..0> the circuit yields sum_j x_j|pattern_j>|flag=0> + g_m|last pattern>|flag=1> with "
           "x_j = U_j[0,1] g_j, g_(j+1) = U_j[1,1] g_j, under the executable order premise implied by the Hamming-weight order (C06_cvo_gates, C06_cvo_loop, C06_cvo_step). "
           "Tie: the instruction list of CvoqramInitialize (aux/no aux, every backend) is compared inside Coq with CvoModel.cvo_gates together with the order premise; the emitted "
-          "rotation matrices must satisfy x_j = requested amplitude, g_m = 0; Qiskit's rccx matrix is compared with the theorem's. PIVOT without auxiliaries: for every classical circuit Q (X, CX, multi-controlled X) and every finite superposition, a dense state carrying each amplitude at the image of its key under the reversed circuit is turned by Q into exactly the listed amplitudes on the listed basis states (C06_pivot_cert, C06_classical_moves_basis); tie: side conditions and the index map evaluated inside Coq on the emitted gates against the dense vector the code builds, n to 14/22. Merge, pivot with auxiliaries and all full-state claims are evaluated; every construction runs under a per-instance watchdog (a pivoting loop that stops terminating is reported, not waited for)."),
-    note="Modelled, not verified: the multi-controlled U without auxiliaries (C04 gates / Qiskit control) as ideal; Qiskit's rccx/cu matrices (compared numerically); pivot: which pivots the loop chooses is not modelled (any choice is covered by the theorem; termination is watched at run time); merge and pivot with auxiliaries evaluated only.",
+          "rotation matrices must satisfy x_j = requested amplitude, g_m = 0; Qiskit's rccx matrix is compared with the theorem's. PIVOT, with and without auxiliaries: for every circuit Q of X, CX, multi-controlled X gates and blocks 'rccx ladder ; CX from the top ancilla ; reversed ladder' (such a block permutes the basis states for EVERY ancilla content: the relative phases cancel, C06_rccx_block) and every finite superposition, a dense state carrying each amplitude at the image of its key under the reversed circuit is turned by Q into exactly the listed amplitudes on the listed basis states, ancillas in 0 (C06_pivot_cert, C06_pivot_aux_cert, C06_classical_moves_basis); tie: side conditions and the index map evaluated inside Coq on the emitted gates against the dense vector the code builds, n to 14/22. Merge and all full-state claims are evaluated; every construction runs under a per-instance watchdog (a pivoting loop that stops terminating is reported, not waited for)."),
+    note="Modelled, not verified: the multi-controlled U without auxiliaries (C04 gates / Qiskit control) as ideal; Qiskit's rccx/cu matrices (compared numerically); pivot: which pivots the loop chooses is not modelled (any choice is covered by the theorem; termination is watched at run time); merge evaluated only.",
     technique="Coq proof (explicit-state loop invariant; flip-flop permutation semantics) + instruction-list correspondence and premise evaluation (vm_compute) + amplitude-recurrence contract + state-vector evaluation",
     design_ref="DESIGN.md section 4, C06")
